@@ -8,6 +8,9 @@
 (*   san-vary  n extra dNSNames derived from an existing one (distinct registrable domains)        *)
 (*   dup-ext   n distinct extensions duplicated                                                    *)
 (*   rdn-vary  n extra subject attributes derived from existing ones                               *)
+(*   elem-vary in every SEQUENCE-valued extension, each element gets n siblings of its own kind    *)
+(*             (same leading OID or tag) with other content from the corpus vocabulary, behind or  *)
+(*             in front of the originals: the same statement / policy / access method twice        *)
 (*   san-case  n dNSNames, the first in upper case and repeated verbatim as common name (a list    *)
 (*             of 3 or 5 entries leaves spare capacity in the parsed slice: in-place edits show)    *)
 EXTENDS KeyUsage, TLC, Json
@@ -24,6 +27,7 @@ SetToSeq(S) == LET RECURSIVE B(_)
                IN B(S)
 KuEku == {[r |-> "kueku", ku |-> SetToSeq(k), ekus |-> s, ok |-> Consistent(k, s)] : k \in (SUBSET Bits) \ {{}}, s \in EkuLists}
 Others == {[r |-> rr, n |-> n] : rr \in {"san-vary", "dup-ext", "rdn-vary"}, n \in {2, 3}} \cup
+          {[r |-> "elem-vary", n |-> n] : n \in {1, 2}} \cup
           {[r |-> "san-case", n |-> n] : n \in {3, 5}}
 Init == x = 0
 Next == UNCHANGED x
